@@ -37,6 +37,7 @@ MECH_CFG = '''CONSTANTS
   Regs = {1}
   OutSels = {0}
   OutSelsRen = {}
+  OutSelsDose = {}
   ReAdmin = "keep"
   Design = "repaired"
   MaxOps = 1
